@@ -12,7 +12,7 @@ def ops (field : String) : List (String × String × Bool) :=
 interception (`filterBatchLocked`) or the watcher (`waitCallback`), always under the mutex; the id
 counter is advanced only in `pushReq` -/
 theorem callback_table_writers :
-    ops "s.call" = [("waitCallback", "delete", true), ("pushReq", "assign", true), ("filterBatchLocked", "delete", true)] ∧
+    ops "s.call" = [("filterBatchLocked", "delete", true), ("pushReq", "assign", true), ("waitCallback", "delete", true)] ∧
     ops "s.callID" = [("pushReq", "assign", true)] := by decide
 
 /-- one watcher goroutine per callback, started in `pushReq` -/
